@@ -183,3 +183,8 @@ Fixpoint bytes_ltb (a b : bytes) : bool :=
   | _ :: _, [] => false
   | x :: a', y :: b' => if x <? y then true else if y <? x then false else bytes_ltb a' b'
   end.
+
+Lemma Zlen_app a b : Zlen (a ++ b) = (Zlen a + Zlen b)%Z.
+Proof. unfold Zlen. rewrite app_length. lia. Qed.
+Lemma Zlen_nonneg a : (0 <= Zlen a)%Z.
+Proof. unfold Zlen. lia. Qed.
